@@ -16,7 +16,8 @@ RULE = ("for every identifier and every domain class of its row in the axiom tab
         "finiteness on all ordered pairs (decorated metrics additionally on the zero-containing "
         "grids N and S0), symmetry on all ordered pairs, non-negativity and zero self-distance "
         "for dissimilarity-type metrics, triangle inequality on ALL ordered triples for the 13 "
-        "true metrics (array arithmetic on the real-call matrix); evaluations = real calls; a "
+        "true metrics (array arithmetic on the real-call matrix); finiteness and symmetry additionally on "
+        "structured vectors of length 32..1024 at unit and at 0..255-like scale; evaluations = real calls; a "
         "pair is non-trivial when i != j")
 ASSUMPTIONS = [
     "the axiom table (which metric claims which axiom on which domain class) is fixed in "
@@ -43,6 +44,7 @@ def plan(tier, seed):
         if name in axioms.DECORATED:
             shards.append((name, "N", "finite-only", tier))
             shards.append((name, "S0", "finite-only", tier))
+        shards.append((name, r["classes"][0], "long", tier))
     return shards
 
 
@@ -89,6 +91,15 @@ def judge(name, cl, mode, vs, M, err):
         out.append(("finite", int(i), int(j), None, "returned %r" % float(M[i, j])))
         return out
     if mode == "finite-only":
+        return out
+    if mode == "finite-sym":
+        if r["symmetric"]:
+            scale = np.maximum(1.0, np.abs(M))
+            bad = np.argwhere(np.abs(M - M.T) > 1e-9 * scale)
+            if len(bad):
+                i, j = bad[0]
+                out.append(("symmetric", int(i), int(j), None,
+                            "d(x,y) = %r but d(y,x) = %r" % (float(M[i, j]), float(M[j, i]))))
         return out
     if r["symmetric"]:
         scale = np.maximum(1.0, np.abs(M))
@@ -138,11 +149,46 @@ def make_violation(name, cl, vs, axiom, i, j, k, text):
             "fingerprint": "metric %s: axiom %s" % (name, axiom)}
 
 
+def long_vectors(cl, seed, tier):
+    """a few structured vectors per length 32..1024 at unit scale and at a 0..255-like scale"""
+    vals = grids.values(cl if cl not in ("S", "T") else "P", seed, "quick")
+    out = {}
+    for L in (32, 100, 256, 784, 1024) + ((2048,) if tier == "thorough" else ()):
+        for sc in (1.0, 50.0):
+            vs = []
+            for (a1, b1) in ((3, 1), (5, 2), (7, 0)):
+                vs.append(tuple(sc * vals[(t * a1 + b1) % len(vals)] for t in range(L)))
+            vs.append(tuple(sc * vals[(t // 7 + 2) % len(vals)] for t in range(L)))
+            out[(L, sc)] = vs
+    return out
+
+
 def run(shard, seed):
     import opfython.math.distance as D
     name, cl, mode, tier = shard
     res = Result()
     fn = D.DISTANCES[name]
+    if mode == "long":
+        # finiteness and symmetry must not depend on the vector length or the feature scale
+        for (L, sc), vs in long_vectors(cl, seed, tier).items():
+            M, err = fill(fn, vs)
+            n = len(vs)
+            res.transitions += n * n
+            res.nontrivial += n * n - n
+            for (axiom, i, j, k, text) in judge(name, cl, "finite-sym", vs, M, err):
+                v = make_violation(name, cl, vs, axiom, i, j, k, "(length %d, scale %g) %s" % (L, sc, text))
+                v["program"]["x"] = {"pattern": "long", "L": L, "scale": sc, "i": i}
+                v["program"]["y"] = {"pattern": "long", "L": L, "scale": sc, "i": j}
+                v["program"]["seed"] = seed
+                res.violations.append(v)
+            res.outcome((name, "long", L, sc))
+            if res.full:
+                break
+        res.sample({"metric": name, "mode": "long", "lengths": [32, 100, 256, 784, 1024], "scales": [1, 50]}, 1)
+        res.evaluations = res.transitions
+        res.states = res.transitions
+        res.traces = res.transitions
+        return res
     V = grids.vectors(cl, seed, tier)
     for d, vs in V.items():
         M, err = fill(fn, vs)
@@ -168,6 +214,17 @@ def replay(case):
     import opfython.math.distance as D
     p = case["program"]
     name, cl, axiom = p["metric"], p["class"], p["axiom"]
+    if isinstance(p["x"], dict):
+        lv = long_vectors(cl, p.get("seed", 0), "thorough")[(p["x"]["L"], p["x"]["scale"])]
+        vs = [lv[p["x"]["i"]], lv[p["y"]["i"]]]
+        M, err = fill(D.DISTANCES[name], vs)
+        for (ax, i, j, k, text) in judge(name, cl, "finite-sym", vs, M, err):
+            if ax == axiom:
+                return make_violation(name, cl, [p["x"], p["y"]], ax, i, j, k, text) \
+                    if False else {"check": ax, "program": p, "observed": text,
+                                   "allowed": "axiom '%s'" % ax, "explanation": text,
+                                   "fingerprint": "metric %s: axiom %s" % (name, ax)}
+        return None
     vs = [tuple(p["x"]), tuple(p["y"])] + ([tuple(p["via"])] if "via" in p else [])
     M, err = fill(D.DISTANCES[name], vs)
     mode = "finite-only" if cl in ("N", "S0") and name in axioms.DECORATED and axiom == "finite" else "axioms"
